@@ -212,6 +212,18 @@ def join(a, b):
     raise Unsupported("cannot join %r and %r" % (a, b))
 
 
+class Arr(list):
+    """a one-dimensional numpy array of scalar abstract values: arithmetic and library functions apply element by element"""
+
+
+class _Break(Exception):
+    pass
+
+
+class _Continue(Exception):
+    pass
+
+
 NP_FUNCS = {"cos": "cos", "sin": "sin", "exp": "exp", "sqrt": "sqrt", "abs": "abs", "fabs": "abs", "absolute": "abs", "log": "log"}
 
 
@@ -314,6 +326,8 @@ class Interp:
             return math.e
         if n.id in ("True", "False"):
             return n.id == "True"
+        if n.id in ("float", "int", "bool", "str", "list", "tuple", "dict") and n.id not in self.funcs:
+            return {"float": float, "int": int, "bool": bool, "str": str, "list": list, "tuple": tuple, "dict": dict}[n.id]     # the type, as a value (dtype=float)
         c = self.funcs.get(n.id)
         if c is not None and not isinstance(c, (ast.FunctionDef, ast.AsyncFunctionDef)):
             return self.ev(c, {})        # literal constant of the module (see module_env)
@@ -358,7 +372,7 @@ class Interp:
             lo, hi, st = (None if x is PYNONE else x for x in (lo, hi, st))
             if not all(x is None or isinstance(x, int) for x in (lo, hi, st)):
                 raise Unsupported("non-concrete slice %s" % text(n))
-            return list(base)[slice(lo, hi, st)]
+            return Arr(list(base)[slice(lo, hi, st)]) if isinstance(base, Arr) else list(base)[slice(lo, hi, st)]
         idx = self.ev(n.slice, env)
         if isinstance(idx, float) and idx.is_integer():
             idx = int(idx)
@@ -375,6 +389,8 @@ class Interp:
 
     def e_UnaryOp(self, n, env):
         v = self.ev(n.operand, env)
+        if isinstance(v, Arr) and isinstance(n.op, (ast.USub, ast.UAdd)):
+            return Arr(self.binop(ast.Mult, -1.0, x) for x in v) if isinstance(n.op, ast.USub) else v
         if isinstance(n.op, ast.USub):
             if isinstance(v, Aff):
                 return v.scale(-1.0)
@@ -400,6 +416,21 @@ class Interp:
         return self.binop(type(n.op), a, b, n)
 
     def binop(self, op, a, b, n=None):
+        if isinstance(a, Arr) or isinstance(b, Arr):
+            if isinstance(a, (list, tuple)) and isinstance(b, (list, tuple)):
+                if len(a) != len(b):
+                    if len(a) == 1:
+                        a = Arr(list(a) * len(b))
+                    elif len(b) == 1:
+                        b = Arr(list(b) * len(a))
+                    else:
+                        raise DomainError("operands could not be broadcast together (%d, %d) in %s" % (len(a), len(b), text(n) if n is not None else op))
+                return Arr(as_iv(x).sqr() if (op is ast.Mult and x is y and isinstance(x, (I, Aff)) and not isinstance(x, D)) else self.binop(op, x, y, n) for x, y in zip(a, b))
+            if isinstance(a, Arr) and (is_num(b) or isinstance(b, bool)):
+                return Arr(self.binop(op, x, b, n) for x in a)
+            if isinstance(b, Arr) and (is_num(a) or isinstance(a, bool)):
+                return Arr(self.binop(op, a, y, n) for y in b)
+            raise Unsupported("array operands of %s" % (text(n) if n is not None else op))
         if isinstance(a, (list, tuple)) and op is ast.Add and isinstance(b, (list, tuple)):
             return list(a) + list(b)
         if isinstance(a, (list, tuple)) and op is ast.Mult and isinstance(b, int):
@@ -649,8 +680,24 @@ class Interp:
         if nm in ("itertools.product", "product") and args and not kw and all(isinstance(a, (list, tuple, range)) for a in args):
             import itertools as _it
             return [list(t) for t in _it.product(*[list(a) for a in args])]
+        if nm in ("np.asarray", "np.array", "numpy.asarray", "numpy.array", "np.asfarray", "np.atleast_1d") and len(args) == 1 and set(kw) <= {"dtype"} \
+                and isinstance(args[0], (list, tuple)) and all(is_num(x) or isinstance(x, bool) for x in args[0]):
+            if "dtype" in kw and kw["dtype"] is not float and kw["dtype"] not in ("float64", "float"):
+                raise Unsupported("array of dtype %s" % text(n))
+            return Arr(float(x) if isinstance(x, (int, bool)) and "dtype" in kw else x for x in args[0])
+        if nm in ("np.arange", "numpy.arange") and 1 <= len(args) <= 3 and not kw and all(isinstance(a, int) and not isinstance(a, bool) for a in args):
+            return Arr(range(*args))
         if isinstance(n.func, ast.Attribute) and not nm.startswith(("np.", "numpy.", "math.")):
             recv = self.ev(n.func.value, env)
+            if isinstance(recv, Arr) and not args and not kw and short in ("sum", "tolist", "copy", "prod"):
+                if short == "sum":
+                    return self.sum(recv)
+                if short == "prod":
+                    acc = 1.0
+                    for v_ in recv:
+                        acc = self.binop(ast.Mult, acc, v_)
+                    return acc
+                return list(recv) if short == "tolist" else Arr(recv)
             if isinstance(recv, list) and short == "append":
                 recv.append(args[0])
                 return None
@@ -667,6 +714,14 @@ class Interp:
         if nm.startswith(("np.", "numpy.", "math.")) or nm in NP_FUNCS or nm in ("exp", "sqrt", "cos", "sin", "fabs", "log"):
             if kw:
                 raise Unsupported("keyword arguments in library call %s" % text(n))
+            if short in NP_FUNCS and len(args) == 1 and isinstance(args[0], Arr):
+                one = ast.Call(func=n.func, args=[ast.Name(id="__el", ctx=ast.Load())], keywords=[])
+                return Arr(self.e_Call(one, {"__el": v_}) for v_ in args[0])
+            if short == "prod" and len(args) == 1 and isinstance(args[0], (list, tuple)):
+                acc = 1.0
+                for v_ in args[0]:
+                    acc = self.binop(ast.Mult, acc, v_)
+                return acc
             if short in NP_FUNCS and len(args) == 1 and self.concrete_lib and not isinstance(args[0], (I, Aff)):
                 f = NP_FUNCS[short]
                 return abs(args[0]) if f == "abs" else getattr(math, f)(args[0])
@@ -809,9 +864,22 @@ class Interp:
             self.bind(s.target, self.binop(type(s.op), cur, v, s), env)
         elif isinstance(s, ast.For):
             seq = self.iterate(self.ev(s.iter, env))
+            broke = False
             for item in seq:
                 self.bind(s.target, item, env)
-                self.block(s.body, env)
+                try:
+                    self.block(s.body, env)
+                except _Continue:
+                    continue
+                except _Break:
+                    broke = True
+                    break
+            if not broke and s.orelse:
+                self.block(s.orelse, env)
+        elif isinstance(s, ast.Break):
+            raise _Break()
+        elif isinstance(s, ast.Continue):
+            raise _Continue()
         elif isinstance(s, ast.If):
             t = self.truth(self.ev(s.test, env))
             if t is None:
@@ -842,6 +910,8 @@ class Interp:
                 envs.append(e2)
             except Ret as r:
                 results.append(r.value)
+            except (_Break, _Continue):
+                raise Unsupported("break/continue under an undecided condition at line %d" % s.lineno)
         self.notes.add("undecided branch at line %d joined" % s.lineno)
         if results and not envs:
             out = None
